@@ -134,7 +134,7 @@ func drawCfg(c *core.RunCtx) cfg {
 	}
 	g.replicas = g.machines
 	g.engine = []string{"mem", "pebble"}[pick(t, 0, 0, 0, 1)]
-	g.snapCount = pick(t, 10, 5, 20, 30)
+	g.snapCount = pick(t, 10, 5, 20, 30, 200) // 200: restarts replay the whole log, membership entries included
 	g.catchup = pick(t, 3, 2, 5, 10)
 	g.keepBackup = pick(t, 0, 1, 2)
 	g.clients = pick(t, 2, 1, 3, 4)
